@@ -42,9 +42,12 @@ def _lin2db(x):
 
 
 @st.composite
-def variable_gain_entry(draw, name, band=None, design=None):
-    gmin = draw(st.integers(5, 22))
-    gmax = gmin + draw(st.integers(4, 12))
+def variable_gain_entry(draw, name, band=None, design=None, gain_range=None):
+    if gain_range is not None:
+        gmin, gmax = gain_range
+    else:
+        gmin = draw(st.integers(5, 22))
+        gmax = gmin + draw(st.integers(4, 12))
     # forward construction (docs/amplifier_models_description): choose coil NFs, derive datasheet nf_min/nf_max
     nf1 = draw(st.floats(4.2, 7.0))
     nf2 = nf1 + draw(st.floats(0.4, 1.9))
